@@ -1,9 +1,366 @@
-/- C17 driver: not written yet -/
+/-
+  C17 driver: runs the model of `Solver::findRoot` (LibfiveModel/Solver.lean) at `Float32`, with the
+  REAL evaluator's answers (harness/solver.cpp output) as the `value` / `grad` oracle, keyed by the
+  evaluator's variable state, and compares
+    * numbers: slope, first step, every trial point (`v - step*d`) re-derived in Float32 against the
+      harness' replica (decides whether the compiler fused `a*b+c`; both variants are IEEE-exact);
+    * decisions: for every budget `g` of the gas sweep the model's outcome (returned residual and
+      variables bit for bit / certified hang) against what the real call returned / did not return.
+  Output: `ok ...` / `MISMATCH ...` / `skip ...` / `info ...` lines.
+-/
 import Driver.Parse
+import LibfiveModel.Solver
+open Libfive Libfive.Solver
 
 namespace Driver.C17
 
-def run (_args : List String) (lines : Array String) : Array String :=
-  #[s!"MISMATCH driver-not-implemented {lines.size}"]
+def f32! (s : String) : Float32 := (F32.parseF32 s).getD (Float32.ofBits 0x7fc00000)
+def hx (f : Float32) : String := F32.toHex f
+
+/-- correctly rounded single-precision fused multiply-add `a*b + c`, through double with
+    round-to-odd (the product of two singles is exact in double) -/
+def fma32 (a b c : Float32) : Float32 :=
+  let p : Float := a.toFloat * b.toFloat
+  let cf := c.toFloat
+  let s := p + cf
+  let bb := s - p
+  let e := (p - (s - bb)) + (cf - bb)
+  if e == 0 || s.isNaN || s.isInf || e.isNaN then s.toFloat32 else
+    let bits := s.toBits
+    if bits &&& 1 == 1 then s.toFloat32 else
+      let up := (e > 0) == (s > 0)
+      (Float.ofBits (if up then bits + 1 else bits - 1)).toFloat32
+
+def f32Scalar (fusedSq fusedSub : Bool) : Scalar Float32 where
+  zero := 0
+  eps := Float32.ofBits 0x358637bd
+  abs := Float32.abs
+  sub := fun a b => a - b
+  div := fun a b => a / b
+  half := fun a => a / 2
+  sqAdd := fun acc x => if fusedSq then fma32 x x acc else acc + x * x
+  subMul := fun v s d => if fusedSub then fma32 (-s) d v else v - s * d
+  lt := fun a b => decide (a < b)
+  ge := fun a b => decide (a ≥ b)
+  geHalf := fun q s => decide (q.toFloat ≥ s.toFloat * 0.5)
+  isFinite := Float32.isFinite
+  isZero := fun a => a == 0
+
+abbrev Key := List UInt32
+def keyOf (a : Assign Float32) : Key := a.map (·.2.toBits)
+
+structure Ret where
+  g : Nat
+  res : Option (Float32 × Assign Float32)     -- none = timeout
+
+structure Trial where
+  k : Nat
+  j : Nat
+  step : Float32
+  vars : Assign Float32
+  r_ : Float32
+
+structure Iter where
+  k : Nat
+  r : Float32
+  grad : Assign Float32
+  slope : Float32
+  step : Float32
+
+structure Case where
+  id : String := ""
+  init : Assign Float32 := []
+  masked : List Var := []
+  indeck : List Var := []
+  rets : Array Ret := #[]
+  iters : Array Iter := #[]
+  trials : Array Trial := #[]
+  userGas : Nat := 0
+  user : Option (Option (Float32 × Assign Float32)) := none
+
+def parsePairs (n : Nat) (ws : List String) : Assign Float32 × List String :=
+  let rec go : Nat → List String → List (Var × Float32) → Assign Float32 × List String
+    | 0, ws, acc => (acc.reverse, ws)
+    | k + 1, i :: v :: ws, acc => go k ws ((nat! i, f32! v) :: acc)
+    | _, ws, acc => (acc.reverse, ws)
+  go n ws []
+
+def parseSol (ws : List String) : Option (Float32 × Assign Float32) :=
+  match ws with
+  | "ok" :: "r" :: r :: "n" :: n :: rest => some (f32! r, (parsePairs (nat! n) rest).1)
+  | _ => none
+
+def addLine (c : Case) (ws : List String) : Case :=
+  match ws with
+  | "vars" :: m :: rest =>
+    let m := nat! m
+    Id.run do
+      let mut init : Assign Float32 := []
+      let mut masked : List Var := []
+      let mut indeck : List Var := []
+      for i in [0:m] do
+        init := init ++ [(i, f32! (rest.getD (4*i+1) ""))]
+        if rest.getD (4*i+2) "" == "1" then masked := masked ++ [i]
+        if rest.getD (4*i+3) "" == "1" then indeck := indeck ++ [i]
+      return { c with init := init, masked := masked, indeck := indeck }
+  | "user" :: "gas" :: g :: rest => { c with userGas := nat! g, user := some (parseSol rest) }
+  | "ret" :: g :: rest => { c with rets := c.rets.push ⟨nat! g, parseSol rest⟩ }
+  | "it" :: k :: "r" :: r :: "grad" :: n :: rest =>
+    let (grad, rest) := parsePairs (nat! n) rest
+    match rest with
+    | "slope" :: s :: "step" :: st :: _ =>
+      { c with iters := c.iters.push ⟨nat! k, f32! r, grad, f32! s, f32! st⟩ }
+    | _ => c
+  | "tr" :: k :: j :: "step" :: st :: "n" :: n :: rest =>
+    let (vars, rest) := parsePairs (nat! n) rest
+    match rest with
+    | "r_" :: r :: _ => { c with trials := c.trials.push ⟨nat! k, nat! j, f32! st, vars, f32! r⟩ }
+    | _ => c
+  | _ => c
+
+def missBits : UInt32 := 0x7fc00000
+
+structure Tables where
+  vals : Array (Key × Float32) := #[]
+  grads : Array (Key × Assign Float32) := #[]
+
+def Tables.value (t : Tables) (ev : Assign Float32) : Float32 :=
+  let k := keyOf ev
+  match t.vals.find? (·.1 == k) with
+  | some (_, v) => v
+  | none => Float32.ofBits missBits
+def Tables.grad (t : Tables) (ev : Assign Float32) : Assign Float32 :=
+  let k := keyOf ev
+  match t.grads.find? (·.1 == k) with
+  | some (_, g) => g
+  | none => []
+def Tables.hasValue (t : Tables) (ev : Assign Float32) : Bool :=
+  let k := keyOf ev
+  t.vals.any (·.1 == k)
+
+def sameF (a b : Float32) : Bool := a.toBits == b.toBits
+def sameAssign (a b : Assign Float32) : Bool :=
+  a.length == b.length && (a.zip b).all fun (p, q) => p.1 == q.1 && sameF p.2 q.2
+def showAssign (a : Assign Float32) : String :=
+  " ".intercalate (a.map fun p => s!"{p.1}:{hx p.2}")
+
+/-- evaluator slots (deck variables) before the call: the constructor's default 0 -/
+def ev0Of (c : Case) : Assign Float32 := c.indeck.map fun i => (i, (0 : Float32))
+
+/-- the evaluator state when the unmasked variables hold `sol` -/
+def evAt (c : Case) (sol : Assign Float32) : Assign Float32 := load (load (ev0Of c) c.init) sol
+
+def buildTables (c : Case) : Tables := Id.run do
+  let mut t : Tables := {}
+  for it in c.iters do
+    -- accepted point k is what the real call with gas k+1 returned
+    match c.rets.find? (·.g == it.k + 1) with
+    | some ⟨_, some (_, sol)⟩ =>
+      let ev := evAt c sol
+      t := { t with vals := t.vals.push (keyOf ev, it.r), grads := t.grads.push (keyOf ev, it.grad) }
+    | _ => pure ()
+  for tr in c.trials do
+    t := { t with vals := t.vals.push (keyOf (evAt c tr.vars), tr.r_) }
+  return t
+
+/-- numbers: re-derive slope / step / trial points of every emitted iteration with scalar `S` -/
+def arithCheck (S : Scalar Float32) (c : Case) : Option String := Id.run do
+  let vars0 := c.init.filter fun p => !c.masked.contains p.1
+  let mut ds : Assign Float32 := vars0.map fun p => (p.1, S.zero)
+  for it in c.iters do
+    match c.rets.find? (·.g == it.k + 1) with
+    | some ⟨_, some (_, sol)⟩ =>
+      ds := load ds it.grad
+      let slope := slopeOf S ds
+      if !sameF slope it.slope then return some s!"slope it {it.k} model {hx slope} real {hx it.slope}"
+      let step0 := S.div it.r slope
+      if !sameF step0 it.step then return some s!"step it {it.k} model {hx step0} real {hx it.step}"
+      let mut step := step0
+      let mut j := 0
+      for tr in c.trials do
+        if tr.k == it.k then
+          if tr.j != j then return some s!"trial order it {it.k}"
+          if !sameF step tr.step then return some s!"halving it {it.k} j {j} model {hx step} real {hx tr.step}"
+          let tv := stepVars S sol ds step
+          if !sameAssign tv tr.vars then
+            return some s!"trialvars it {it.k} j {j} model {showAssign tv} real {showAssign tr.vars}"
+          step := S.half step
+          j := j + 1
+    | _ => pure ()
+  return none
+
+def classifyHang (S : Scalar Float32) (st : St Float32) (step : Float32) : String :=
+  let fixed := sameF (S.half step) step
+  if !fixed then "not-fixed"
+  else if step.isNaN then "nan-step"
+  else if step.isInf then "inf-step"
+  else if step == 0 then
+    (if st.ds.any (fun p => !p.2.isFinite) then "zero-step-nonfinite-gradient" else "zero-step")
+  else "other"
+
+def runCase (c : Case) (onlyUnfused : Bool := false) : Array String := Id.run do
+  let tag := s!"case {c.id}"
+  let mut out : Array String := #[]
+  if c.rets.isEmpty then return #[s!"skip nosweep {tag}"]
+  -- choose the arithmetic variant that reproduces the numbers
+  let variants := if onlyUnfused then [(false, false)] else [(true, true), (false, true), (true, false), (false, false)]
+  let mut chosen : Option (Bool × Bool) := none
+  let mut firstErr := ""
+  for v in variants do
+    if chosen.isNone then
+      match arithCheck (f32Scalar v.1 v.2) c with
+      | none => chosen := some v
+      | some e => if firstErr == "" then firstErr := e
+  match chosen with
+  | none => return #[s!"skip arith {tag} {firstErr}"]
+  | some v =>
+    out := out.push s!"ok arith {tag} fusedSq {v.1} fusedSub {v.2} iters {c.iters.size} trials {c.trials.size}"
+    let S := f32Scalar v.1 v.2
+    let T := buildTables c
+    let P : Problem Float32 := { value := T.value, grad := T.grad }
+    let ev0 := ev0Of c
+    let lastG := (c.rets.back?.map (·.g)).getD 0
+    -- The tables hold the evaluator's answers for iterations 0 .. lastG-2 only.  Run the model for
+    -- that many loop heads; if it is still going, let it take ONE more loop head with a poisoned
+    -- evaluator (all gradients 1, so the `all gradients small` break cannot fire and any line search
+    -- ends in `.outerFuel`/`.hung`): a `.returned` then comes from the loop test alone
+    -- (converged / small residual / out of gas), which needs no evaluator answer.
+    let poison : Problem Float32 :=
+      { value := fun _ => Float32.ofBits missBits, grad := fun ev => ev.map fun p => (p.1, (1 : Float32)) }
+    let run := fun (gas : Nat) =>
+      match findRoot S P 450 (lastG - 1) ev0 c.init c.masked gas with
+      | .outerFuel st =>
+        (match outer S poison 1 1 st with
+         | .returned st' => Outcome.returned st'
+         | _ => Outcome.outerFuel st)
+      | o => o
+    let mut maxIters := 0
+    let mut hang := "none"
+    let mut nonfinite := false
+    let mut lastOk : Option (Float32 × Assign Float32) := none
+    let mut stable := false
+    let mut prev : Option (Float32 × Assign Float32) := none
+    for r in c.rets do
+      let o := run r.g
+      match r.res, o with
+      | some (rr, sol), .returned st =>
+        if sameF st.r rr && sameAssign st.vars sol then
+          out := out.push s!"ok ret {tag} g {r.g} iters {st.iters}"
+        else
+          out := out.push s!"MISMATCH ret {tag} g {r.g} model r {hx st.r} vars {showAssign st.vars} iters {st.iters} real r {hx rr} vars {showAssign sol}"
+        if st.iters > maxIters then maxIters := st.iters
+        if st.log.any (fun e => !e.step.isFinite) then nonfinite := true
+        match prev with
+        | some (pr, ps) => if sameF pr rr && sameAssign ps sol then stable := true
+        | none => pure ()
+        prev := some (rr, sol)
+        lastOk := some (rr, sol)
+      | none, .hung st step n =>
+        let kind := classifyHang S st step
+        if kind == "not-fixed" then
+          out := out.push s!"MISMATCH ret {tag} g {r.g} real timeout, model ran out of fuel without a fixed point (step {hx step} after {n} halvings)"
+        else
+          out := out.push s!"ok hang {tag} g {r.g} iteration {st.iters} kind {kind} step {hx step}"
+          hang := s!"{st.iters}:{kind}"
+      | some (rr, sol), .hung st step n =>
+        out := out.push s!"MISMATCH ret {tag} g {r.g} model hangs in iteration {st.iters} (step {hx step}, {n} halvings, {classifyHang S st step}) real returned r {hx rr} vars {showAssign sol}"
+      | none, .returned st =>
+        out := out.push s!"MISMATCH ret {tag} g {r.g} real timeout, model returns r {hx st.r} vars {showAssign st.vars} after {st.iters} iterations"
+      | _, .outerFuel _ =>
+        out := out.push s!"MISMATCH ret {tag} g {r.g} model outer fuel"
+    -- the user-level call
+    match c.user with
+    | none => pure ()
+    | some u =>
+      let G := c.userGas
+      let eff := decGas G                       -- iterations the budget admits
+      -- (a budget beyond the sweep on a trajectory that has not settled ends in `.outerFuel` below)
+      if false then
+        out := out.push s!"skip user {tag} gas {G} beyond sweep {lastG}"
+      else
+        let o := run G
+        match u, o with
+        | some (rr, sol), .returned st =>
+          if sameF st.r rr && sameAssign st.vars sol then
+            out := out.push s!"ok user {tag} gas {G} iters {st.iters}"
+          else
+            out := out.push s!"MISMATCH user {tag} gas {G} model r {hx st.r} vars {showAssign st.vars} real r {hx rr} vars {showAssign sol}"
+          if st.iters > maxIters then maxIters := st.iters
+          if st.log.any (fun e => !e.step.isFinite) then nonfinite := true
+          out := out.push s!"info user {tag} gas {G} iters {st.iters} budget {if G = 0 then 0 else G - 1}"
+        | none, .hung st step _ =>
+          let kind := classifyHang S st step
+          if kind == "not-fixed" then
+            out := out.push s!"MISMATCH user {tag} gas {G} real timeout, model out of fuel without fixed point"
+          else
+            out := out.push s!"ok userhang {tag} gas {G} iteration {st.iters} kind {kind}"
+            hang := s!"{st.iters}:{kind}"
+        | some (rr, sol), .hung st step _ =>
+          out := out.push s!"MISMATCH user {tag} gas {G} model hangs ({classifyHang S st step}) real returned r {hx rr} vars {showAssign sol}"
+        | none, .returned st =>
+          out := out.push s!"MISMATCH user {tag} gas {G} real timeout, model returns after {st.iters} iterations"
+        | none, .outerFuel st =>
+          -- only possible when the budget is (wrapped to) larger than the sweep
+          out := out.push s!"ok userlong {tag} gas {G} model still iterating after {st.iters} iterations (budget {eff})"
+        | some _, .outerFuel st =>
+          out := out.push s!"skip user {tag} gas {G} beyond sweep: model still iterating after {st.iters} iterations (budget {eff})"
+    out := out.push s!"info case {c.id} maxiters {maxIters} hang {hang} nonfinite_accepted {if nonfinite then 1 else 0} fused {v.1} {v.2}"
+    return out
+
+/-- IEEE facts the theorems assume of the scalar (`Laws` in LibfiveProofs/Solver.lean), tested at
+    Float32 on a landmark set. Prints `ok law ...` / `LAWFAIL ...`. -/
+def lawCheck : Array String := Id.run do
+  let S := f32Scalar true true
+  let bitsL : List UInt32 := [0x00000000, 0x80000000, 0x00000001, 0x80000001, 0x007fffff, 0x00800000,
+    0x358637bd, 0x3f800000, 0xbf800000, 0x40490fdb, 0x7f7fffff, 0xff7fffff, 0x7f800000, 0xff800000,
+    0x7fc00000, 0x3eaaaaab, 0xc2c80000, 0x4b800000]
+  let L := bitsL.map Float32.ofBits
+  let fin := L.filter Float32.isFinite
+  let mut out : Array String := #[]
+  let mut bad := 0
+  let mut szero := 0
+  -- bit-strict; the only tolerated exception is the sign of a zero result (`-0 - (-0) = +0`):
+  -- the model scalar has one zero, IEEE has two — counted and reported, see known finding
+  -- C17:linesearch-hang-signed-zero-step
+  for v in L do
+    for s in fin do
+      let x := S.subMul v s S.zero
+      if !sameF x v then
+        if x == 0 && v == 0 then szero := szero + 1
+        else bad := bad + 1; out := out.push s!"LAWFAIL subMul_zero v {hx v} s {hx s}"
+    for d in fin do
+      for z in [Float32.ofBits 0, Float32.ofBits 0x80000000] do
+        let x := S.subMul v z d
+        if !sameF x v then
+          if x == 0 && v == 0 then szero := szero + 1
+          else bad := bad + 1; out := out.push s!"LAWFAIL subMul_zero_step v {hx v} d {hx d}"
+  for s in fin do
+    if !(S.half s).isFinite then bad := bad + 1; out := out.push s!"LAWFAIL half_finite {hx s}"
+    let mut x := s
+    for _ in [0:300] do x := S.half x
+    if !(x == 0) then bad := bad + 1; out := out.push s!"LAWFAIL halves_to_zero {hx s}"
+    if !(S.lt (S.abs (S.sub s s)) S.eps) then bad := bad + 1; out := out.push s!"LAWFAIL sub_self {hx s}"
+  for a in L do
+    for b in L do
+      if (S.div a b).isFinite && !a.isFinite then bad := bad + 1; out := out.push s!"LAWFAIL div_finite {hx a} {hx b}"
+  for x in [Float32.ofBits 0x7fc00000, Float32.ofBits 0x7f800000, Float32.ofBits 0xff800000] do
+    if !sameF (S.half x) x then bad := bad + 1; out := out.push s!"LAWFAIL half_fixed {hx x}"
+  if bad == 0 then out := out.push s!"ok laws {L.length} landmarks signed-zero-exceptions {szero}"
+  return out
+
+def run (args : List String) (lines : Array String) : Array String := Id.run do
+  if args.contains "laws" then return lawCheck
+  let mut out : Array String := #[]
+  let mut cur : Option Case := none
+  for l in lines do
+    let ws := words l
+    match ws with
+    | "case" :: k :: _ => cur := some { id := k }
+    | "end" :: _ =>
+      match cur with
+      | some c => out := out ++ runCase c (args.contains "only-unfused"); cur := none
+      | none => pure ()
+    | _ => cur := cur.map (addLine · ws)
+  return out
 
 end Driver.C17
